@@ -269,7 +269,7 @@ fn unop(op: &str, args: &[&str]) -> String {
             }
         }
         "from_str" => {
-            let b = unhex(args[0]);
+            let b = unhex(if args.is_empty() { "" } else { args[0] });
             match std::str::from_utf8(&b) { Ok(s) => match Decimal::from_str(s) { Ok(d) => show(d), Err(e) => format!("ERR {:?}", e) }, Err(_) => "NOTUTF8".to_string() }
         }
         "try_from_str" => {
@@ -283,7 +283,7 @@ fn unop(op: &str, args: &[&str]) -> String {
             match Decimal::try_from(s) { Ok(d) => show(d), Err(e) => format!("ERR {:?}", e) }
         }
         "str_to_dec" => {
-            let b = unhex(args[0]);
+            let b = unhex(if args.is_empty() { "" } else { args[0] });
             let s = std::str::from_utf8(&b).unwrap();
             match fpdec_core::str_to_dec(s) { Ok((c, e)) => format!("PAIR {} {}", c, e), Err(e) => format!("ERR {:?}", e) }
         }
